@@ -159,6 +159,12 @@ def handleSettings (op : String) (j : Json) : Except String Json := do
             ("name", Json.str r.name), ("kinds", Json.arr (r.kinds.map Json.str).toArray),
             ("params", Json.arr (r.params.map (fun p => Json.str p.1)).toArray), ("guards", jnat r.guards.length)])).toArray),
           ("stages", Json.arr (initStages.map (fun p => Json.str (reprStr p.1 ++ (if p.2 then "?" else "")))).toArray),
+          ("kind_checks", Json.arr (kindChecks.map (fun p => Json.str (p.1 ++ ":" ++ p.2))).toArray),
+          ("witness_hypotheses", Json.mkObj [
+            ("blake2b_has_no_guard", Json.bool (guardCount "blake2b" == 0)),
+            ("gclmulchunker_has_one_guard", Json.bool (guardCount "gclmulchunker" == 1)),
+            ("hashing_kind_unchecked", Json.bool (!kindChecked "hashing")),
+            ("chunking_kind_unchecked", Json.bool (!kindChecked "chunking"))]),
           ("recognised", Json.bool settingsRecognised)])
   | _ => throw s!"unknown op {op}"
 
